@@ -508,7 +508,9 @@ func writeComputedFieldExpression(w *formatting.IndentedWriter, expression dsl.E
 				w.WriteString(" ")
 
 				requiresParentheses = false
-				if r, ok := t.Right.(*dsl.BinaryExpression); ok && r.Operator.Precedence() < t.Operator.Precedence() {
+				// every MATLAB operator used here (including ^) is left-associative: a right
+				// operand of equal precedence keeps its parentheses
+				if r, ok := t.Right.(*dsl.BinaryExpression); ok && r.Operator.Precedence() <= t.Operator.Precedence() {
 					requiresParentheses = true
 				}
 
